@@ -135,3 +135,64 @@ Proof.
   destruct (color_fmt_correct _ _ _ _ H2) as (-> & ? & ? & ?).
   now apply color_process_correct.
 Qed.
+
+(* ---------- closure: the result of colour arithmetic is again a literal denoting the spec triple,
+   so chains of operations compose ---------- *)
+Lemma colour_value_hex6 r g b :
+  (r < 256)%N -> (g < 256)%N -> (b < 256)%N -> colour_value (hex6 r g b) = Some (r, g, b).
+Proof.
+  intros Hr Hg Hb.
+  destruct (hex2_digits r Hr) as (r1 & r2 & Hr1 & Hr2 & ->).
+  destruct (hex2_digits g Hg) as (g1 & g2 & Hg1 & Hg2 & ->).
+  destruct (hex2_digits b Hb) as (b1 & b2 & Hb1 & Hb2 & ->).
+  unfold hex6. rewrite !hex2_pair by assumption. cbn [app]. unfold colour_value.
+  rewrite !hexval_hexdigit by assumption. reflexivity.
+Qed.
+
+Lemma color_expr_closed v1 sym v2 o r1 g1 b1 r2 g2 b2 :
+  colour_value v1 = Some (r1, g1, b1) -> colour_value v2 = Some (r2, g2, b2) ->
+  op_of_sym sym = Some o -> (o = OTrueDiv -> r2 <> 0 /\ g2 <> 0 /\ b2 <> 0)%N ->
+  exists w, color_expr v1 sym v2 = Some w /\
+    colour_value w = Some (chan_spec o r1 r2, chan_spec o g1 g2, chan_spec o b1 b2) /\
+    color_fmt w = Some w /\ wellformed_colour w = true.
+Proof.
+  intros H1 H2 Hs Hd. exists (hex6 (chan_spec o r1 r2) (chan_spec o g1 g2) (chan_spec o b1 b2)).
+  split; [now apply color_expr_correct|].
+  assert (colour_value (hex6 (chan_spec o r1 r2) (chan_spec o g1 g2) (chan_spec o b1 b2)) =
+          Some (chan_spec o r1 r2, chan_spec o g1 g2, chan_spec o b1 b2)) as Hv
+    by (apply colour_value_hex6; apply chan_spec_lt).
+  split; [exact Hv|]. split.
+  - now destruct (color_fmt_correct _ _ _ _ Hv) as (-> & _).
+  - apply hex6_wellformed; apply chan_spec_lt.
+Qed.
+
+(* (v1 o v2) o' v3, any three literals: channel-wise composition of the clamped operations *)
+Lemma color_expr_chain v1 sym v2 sym' v3 o o' r1 g1 b1 r2 g2 b2 r3 g3 b3 :
+  colour_value v1 = Some (r1, g1, b1) -> colour_value v2 = Some (r2, g2, b2) ->
+  colour_value v3 = Some (r3, g3, b3) ->
+  op_of_sym sym = Some o -> op_of_sym sym' = Some o' ->
+  (o = OTrueDiv -> r2 <> 0 /\ g2 <> 0 /\ b2 <> 0)%N ->
+  (o' = OTrueDiv -> r3 <> 0 /\ g3 <> 0 /\ b3 <> 0)%N ->
+  opt_bind (color_expr v1 sym v2) (fun w => color_expr w sym' v3) =
+    Some (hex6 (chan_spec o' (chan_spec o r1 r2) r3) (chan_spec o' (chan_spec o g1 g2) g3)
+               (chan_spec o' (chan_spec o b1 b2) b3)).
+Proof.
+  intros H1 H2 H3 Hs Hs' Hd Hd'.
+  destruct (color_expr_closed _ _ _ _ _ _ _ _ _ _ H1 H2 Hs Hd) as (w & -> & Hw & _).
+  cbn [opt_bind]. now apply color_expr_correct.
+Qed.
+
+(* algebra of the clamped channel operations *)
+Lemma chan_add_comm x y : chan_spec OAdd x y = chan_spec OAdd y x.
+Proof. unfold chan_spec. now rewrite Z.add_comm. Qed.
+Lemma chan_mul_comm x y : chan_spec OMul x y = chan_spec OMul y x.
+Proof. unfold chan_spec. now rewrite Z.mul_comm. Qed.
+Lemma chan_add_assoc x y z : (x < 256)%N -> (y < 256)%N -> (z < 256)%N ->
+  chan_spec OAdd (chan_spec OAdd x y) z = chan_spec OAdd x (chan_spec OAdd y z).
+Proof. intros; unfold chan_spec, clamp255; lia. Qed.
+Lemma chan_add_0 x : (x < 256)%N -> chan_spec OAdd x 0 = x.
+Proof. intros; unfold chan_spec, clamp255; lia. Qed.
+Lemma chan_sub_self x : chan_spec OSub x x = 0%N.
+Proof. unfold chan_spec, clamp255; lia. Qed.
+Lemma chan_add_mono x x' y : (x <= x')%N -> (chan_spec OAdd x y <= chan_spec OAdd x' y)%N.
+Proof. intros; unfold chan_spec, clamp255; lia. Qed.
